@@ -4,6 +4,6 @@ tier=${1:-quick}
 cd /verif
 for id in $(python3 -c "import json;print(' '.join(sorted(json.load(open('checks.json')).keys())))"); do
   if [ "$tier" = thorough ] && ! python3 -c "import json,sys;sys.exit(0 if 'thorough' in json.load(open('checks.json'))['$id']['tiers'] else 1)"; then continue; fi
-  s=$(date +%s); ./check $id --tier $tier > /tmp/all-$id.log 2>&1; code=$?; e=$(date +%s)
+  s=$(date +%s); timeout 3600 ./check $id --tier $tier > /tmp/all-$id.log 2>&1; code=$?; e=$(date +%s)
   echo "$id exit=$code $((e-s))s $(grep -E '^(OK|VIOLATION|INCONCLUSIVE)' /tmp/all-$id.log | head -2 | cut -c1-160 | tr '\n' ' ')"
 done
